@@ -20,6 +20,10 @@ fn big_values() -> Vec<f64> {
     (0..300).map(|i| match i { 0 => 3.25, 7 => 2053.0, _ => ((i * 37 + 11) % 1000) as f64 / 8.0 + 0.0625 }).collect()
 }
 
+fn huge_values() -> Vec<f64> {
+    (0..257 * 257).map(|i| ((i * 37 + 11) % 1000) as f64 / 8.0 + 0.0625 + if i % 4099 == 0 { 1e-7 } else { 0.0 }).collect()
+}
+
 fn seed_vcf() -> String {
     let cols: Vec<String> = ["a", "b", "c"].iter().map(|s| s.to_string()).collect();
     let rows = [["0/1", "1/1", "0/0"], ["0/0", "0/1", "1/1"], ["1/1", "1/1", "0/1"], ["0/1", "0/0", "0/0"], ["0/0", "0/0", "0/1"], ["1|0", "0|1", "1|1"]];
@@ -82,6 +86,9 @@ pub fn run(case: &Value, ctx: &Ctx) -> Outcome {
                         // large spectra (more than a stdout buffer) whose doubles contain newline bytes (3.25, 2053.0)
                         "bigtext" => produced = cli::write_text(&[15, 20], &big_values(), 17),
                         "bignpy" => produced = cli::write_npy(&[15, 20], &big_values()),
+                        // more than 2^16 cells
+                        "hugetext" => produced = cli::write_text(&[257, 257], &huge_values(), 17),
+                        "hugenpy" => produced = cli::write_npy(&[257, 257], &huge_values()),
                         _ => produced = cli::write_npy(&SEED_SHAPE, &seed_values()),
                     }
                     match parse_any(&produced) {
@@ -243,6 +250,30 @@ pub fn run(case: &Value, ctx: &Ctx) -> Outcome {
                 }
                 other => out.fail("toolchain/roundtrip/read-failed", json!({"result": format!("{other:?}"), "fmt": fmt, "prec": prec, "shape": shape})),
             }
+        }
+        "named" => {
+            let fmt = case["fmt"].as_str().unwrap();
+            let name = case["name"].as_str().unwrap();
+            let consumer = case["consumer"].as_str().unwrap();
+            out.nontrivial = Some(format!("{fmt}/{name}/{consumer}"));
+            // the artefact is written by the tool itself, straight to that name
+            let dir = format!("{}/files/named_{}_{id:016x}", ctx.work, std::process::id());
+            std::fs::create_dir_all(&dir).expect("mkdir");
+            let path = format!("{dir}/{name}");
+            let seed = cli::write_npy(&SEED_SHAPE, &seed_values());
+            let w = cli::sfs(ctx, &["view", "-O", fmt, "--precision", "6", "-o", &path], Some(&seed));
+            if !w.ok() {
+                out.fail("toolchain/named/write-failed", json!({"name": name, "fmt": fmt, "stderr": w.stderr}));
+            } else {
+                let args: Vec<&str> = match consumer { "view" => vec!["view", "-O", "npy", &path], "fold" => vec!["fold", &path], _ => vec!["stat", "-s", "sum", &path] };
+                let r = cli::sfs(ctx, &args, None);
+                out.check(r.ok() && !r.stdout.is_empty(), || format!("toolchain/named/{consumer}-rejected-own-output"), || json!({"name": name, "fmt": fmt, "code": r.code, "stderr": r.stderr}));
+                if r.ok() && consumer == "view" {
+                    let ok = cli::parse_npy(&r.stdout).map(|(s, v)| s == SEED_SHAPE.to_vec() && v.iter().zip(seed_values()).all(|(g, x)| (g - x).abs() <= 0.5e-6 + 1e-12)).unwrap_or(false);
+                    out.check(ok, || "toolchain/named/values".into(), || json!({"name": name, "fmt": fmt}));
+                }
+            }
+            let _ = std::fs::remove_dir_all(&dir);
         }
         "digits" => {
             let m = case["m"].as_str().unwrap();
